@@ -3,6 +3,7 @@ import SpsdkVerif.Model.ConfigArea
 import SpsdkVerif.Generated.RegLayouts
 import SpsdkVerif.Generated.RegDetails
 import SpsdkVerif.Generated.PfrRules
+import SpsdkVerif.Generated.ScalarRule
 open SpsdkVerif Driver
 open SpsdkVerif.CfgArea SpsdkVerif.Misc
 
@@ -101,6 +102,15 @@ def cfgRoundtrip (l : Layout) (d : LayoutD) (vals : Vals) : String :=
         | .error e => e.tag
         | .ok rf => "ok:" ++ natCsv (valuesOfG rf)
 
+def hexDigitVal (c : Char) : Option Nat :=
+  if '0' ≤ c && c ≤ '9' then some (c.toNat - '0'.toNat)
+  else if 'a' ≤ c && c ≤ 'f' then some (c.toNat - 'a'.toNat + 10)
+  else if 'A' ≤ c && c ≤ 'F' then some (c.toNat - 'A'.toNat + 10)
+  else none
+
+def digitsOf (s : String) : Option (List Nat) :=
+  if s == "-" then some [] else s.toList.mapM hexDigitVal
+
 def stepLine (st : St) : List String → St × String
   | ["sel", i] => match parseNat i with
     | some i => (match Generated.RegLayouts.layouts[i]? with
@@ -151,6 +161,16 @@ def stepLine (st : St) : List String → St × String
     | some b => (st, resLine natCsv (fcfParse Generated.RegLayouts.fcfSize st.l b (initVals st.d)))
     | none => (st, "bad-op")
   | ["ow", vals] => (st, resLine natCsv (optionWords st.d.aux st.l (csvNat vals)))
+  | ["scalar", hx, kind, payload] =>
+    let sc : Option Scalar := if kind == "i" then payload.toNat?.map Scalar.int
+      else if kind == "d" then (digitsOf payload).map Scalar.digits
+      else if kind == "p" then (digitsOf payload).map Scalar.prefixed else none
+    (match sc, Generated.ScalarRule.scalarRule with
+     | some sc, some rule => (match decodeScalar rule (hx == "1") sc with
+       | some v => (st, s!"ok:{v}")
+       | none => (st, "err"))
+     | none, _ => (st, "bad-op")
+     | _, none => (st, "untranslated"))
   | ["init"] => (st, natCsv (initVals st.d))
   | ["groups"] => (st, ";".intercalate (st.d.regs.zipIdx.filterMap (fun x =>
       if x.1.subW == 0 then none
